@@ -3,7 +3,8 @@ JSON-lines driver for E9 (Resolver model).  Run with
   lake env lean --run Drv/Resolver.lean < cases.jsonl
 One JSON object per input line, one JSON object per output line.
 
-  {"prog":{"entries":[E,...]},"queries":[{"q":["entry",i] | ["cmeth",c,j],"names":[n,...]},...]}
+  {"prog":{"entries":[E,...] (, "mods":[{"globals":[[symbol,entry],...],"flip":b},...], "modOf":[m,...], "cmDef":[[definer,...],...]
+           = a program spread over modules: ["entry",s] / ["attr",s] / ["cmeth",s,j] hold SYMBOLS, linked by `link`)},"queries":[{"q":["entry",i] | ["cmeth",c,j],"names":[n,...]},...]}
      E        = {"fn":C} | {"cls":{"init":C|null,"mro":[i,...],"meths":[C,...],"cmeths":[C,...]}}
      C        = {"params":[{"name":s,"ty":[atom,...],"dflt":null|{"tok":s,"key":s,"str":s},"kind":"pk"|"ko"},...],
                  "varkw":b,"uses":[{"g":"a"|{"const":b}|{"branch":i},"u":U},...]}
@@ -16,7 +17,7 @@ One JSON object per input line, one JSON object per output line.
      wf = the decidable hypothesis `WfProg` of theorem C13_exact holds for the program
 -/
 import Lean.Data.Json
-import Jap.Core.Resolver
+import Jap.Core.ResolverMod
 
 open Lean Jap.Resolver
 
@@ -125,9 +126,27 @@ def entryOf (j : Json) : Entry :=
              cmeths := (jArr k "cmeths").map callableOf }
     | _ => .fn ⟨[], false, []⟩
 
+def pairOf (j : Json) : Nat × Nat :=
+  match j with
+  | .arr #[a, b] => (jNat a, jNat b)
+  | _ => (0, 0)
+
+def moduleOf (j : Json) : Jap.Resolver.Module :=
+  { globals := (jArr j "globals").map pairOf, flip := jBool j "flip" }
+
+/-- a program spread over modules (`"mods"` present: targets hold symbols, see Core/ResolverMod) is linked first -/
 def progOf (j : Json) : Prog :=
   match j.getObjVal? "prog" with
-  | .ok p => ⟨(jArr p "entries").map entryOf⟩
+  | .ok p =>
+    let src : Prog := ⟨(jArr p "entries").map entryOf⟩
+    match p.getObjVal? "mods" with
+    | .ok (.arr ms) =>
+      link { src := src, modOf := (jArr p "modOf").map jNat,
+             cmDef := (jArr p "cmDef").map (fun r => match r with
+               | .arr xs => xs.toList.map jNat
+               | _ => []),
+             mods := ms.toList.map moduleOf }
+    | _ => src
   | _ => ⟨[]⟩
 
 def cidOf (j : Json) : CId :=
